@@ -7,6 +7,7 @@ import Pk.Config
 import Pk.Tsvd
 import Pk.Names
 import Pk.Gram
+import Pk.FitLoop
 /-! Line-protocol driver for the Mathlib-free model: one request per line on stdin, one reply per
 line on stdout.  The harness (`/verif/harness`) sends the same cases to the real pykoop and diffs. -/
 open Pk
@@ -119,19 +120,6 @@ def cmdTraj : P String := do
     match predictTrajectory (rowFn intOps) p relift lifted inp X0 U with
     | .error _ => pure "err ValueError"
     | .ok Y => pure ("ok " ++ showMat toString Y)
-
-def pRat : P Rat := do
-  let t ← tok
-  match t.splitOn "/" with
-  | [a] => match a.toInt? with
-    | some n => pure (n : Rat)
-    | none => throw s!"rat expected: {t}"
-  | [a, b] => match a.toInt?, b.toNat? with
-    | some n, some d => pure ((n : Rat) / (d : Rat))
-    | _, _ => throw s!"rat expected: {t}"
-  | _ => throw s!"rat expected: {t}"
-
-def showRat (r : Rat) : String := if r.den == 1 then toString r.num else s!"{r.num}/{r.den}"
 
 def pOptNat : P (Option Nat) := do
   let t ← tok
@@ -285,6 +273,27 @@ def cmdEdmd : P String := do
   | none => pure "singular"
   | some U => pure ("ok " ++ showRMat U)
 
+/-- `fitloop <maxIter> <atol> <rtol> <K> then K x (aOpt aObj bOpt stopA stopB)`; `U`/`P` are identified by the
+index of the sub-problem answer that produced them (`-1` = initial value) -/
+def cmdFitLoop : P String := do
+  let maxIter ← pNat; let atol ← pRat; let rtol ← pRat
+  let k ← pNat
+  let rows ← pMany k (do
+    let ao ← pBool; let obj ← pRat; let bo ← pBool; let sa ← pBool; let sb ← pBool
+    pure (ao, obj, bo, sa, sb))
+  let get := fun (i : Nat) => rows.getD i (false, 0, false, true, true)
+  let absR := fun (x : Rat) => if x < 0 then -x else x
+  let e : FitLoop.Env Int Int :=
+    { solveA := fun _ i => ⟨(get i).1, (i : Int), (get i).2.1⟩
+      solveB := fun _ i => ⟨(get i).2.2.1, (i : Int)⟩
+      stopA := fun i => (get i).2.2.2.1
+      stopB := fun i => (get i).2.2.2.2
+      close := fun curr prev => decide (absR (curr - prev) ≤ atol + rtol * absR prev) }
+  let r := FitLoop.fit e maxIter (-1) (-1)
+  let st := match r.stop with
+    | .user => "user" | .aFailed => "a_failed" | .tol => "tol" | .bFailed => "b_failed" | .maxIter => "max_iter"
+  pure (s!"ok {r.u} {r.p} {st} {r.nIter} {r.log.length} " ++ " ".intercalate (r.log.map showRat))
+
 def intCells : Cells Int := ⟨0, Int.toNat, Int.ofNat⟩
 
 def pRaw : P (Raw Int) := do
@@ -341,6 +350,7 @@ def dispatch : P String := do
   | "predict" => cmdPredict
   | "traj" => cmdTraj
   | "edmd" => cmdEdmd
+  | "fitloop" => cmdFitLoop
   | "tsvd" => cmdTsvd
   | "names" => cmdNames
   | "config" => cmdConfig
